@@ -175,7 +175,7 @@ def main(tier):
         "on a successful feed the free-buffer value may be unreadable (non-success status of the value read): the keep-alive still succeeded",
         "keep-alive outcomes are success, asyncio.TimeoutError or EzspError raised by the keep-alive command or by the free-buffer read that belongs to the same feed",
     ]
-    L = 4 if tier == "quick" else 6
+    L = 4 if tier == "quick" else 5
     c.run("checks.c19:FEED", {"L": L})
     c.out_of_bounds += ["outcome sequences longer than %d feeds (start state: every failure count 0..max and every feed-counter value, both symbolic, so longer histories reduce to these start states)" % L]
     return c.finish()
